@@ -319,8 +319,9 @@ class NDNApp:
             self.logger.info('Shutting down')
             ret = False
         finally:
+            # Also when the transport failed (face.run() raised): the connection is gone
             self.face.shutdown()
-        self._clean_up()
+            self._clean_up()
         await task
         return ret
 
